@@ -21,7 +21,7 @@ VARIABLES L, removedByTime
 
 vars == <<L, removedByTime>>
 
-Init == \E hasintv \in BOOLEAN, given \in Intervals, cb \in BOOLEAN :
+Init == \E hasintv \in BOOLEAN, given \in Intervals, cb \in {"", "cb1"} :
           /\ L = LInit(hasintv, given, Default, cb, 0)
           /\ removedByTime = {}
 
@@ -33,20 +33,21 @@ Advance(dt) ==
 Get(k) == L' = LGet(L, k) /\ UNCHANGED removedByTime
 Manual == L' = LDeleteExpired(L) /\ UNCHANGED removedByTime
 Observe == L' = LObserved(L) /\ UNCHANGED removedByTime
+SetCb == \E id \in {"", "cb1", "cb2"} : L' = LSetCb(L, id) /\ UNCHANGED removedByTime
 
 Next == \/ \E k \in Keys, d \in TTLs : Set(k, d)
         \/ \E dt \in Steps : Advance(dt)
         \/ \E k \in Keys : Get(k)
         \/ Manual
         \/ Observe
+        \/ SetCb
 
 Spec == Init /\ [][Next]_vars
 
 OnlyWhenConfigured == L.intv <= 0 => removedByTime = {}
 BoundedStaleness == L.intv > 0 => \A k \in Dead(L, L.now) : L.phys[k] >= L.next - L.intv
 TickAhead == L.intv > 0 => L.now < L.next
-ReportedOnce == L.pend \cap DOMAIN L.phys = {} \/ \A k \in L.pend \cap DOMAIN L.phys : TRUE
-PendingOnlyWithCallback == ~L.cb => L.pend = {}
+PendingOnlyWithCallback == \A p \in L.pend : p.cb # ""
 
 IntervalsDef == {0 - 3, 0, 2, 3}
 =============================================================================
